@@ -24,6 +24,7 @@ type Plan struct {
 	TimeCapS  int
 	// NonTrivial names the Stats counters/classes that count as non-trivial for this property.
 	PrefixDepth int
+	NoABCI      bool
 	// Custom, when set, replaces the scenario exploration entirely (C14, C17, C20 …).
 	Custom func(p *Plan, o ExecOpts) (*ExecOut, error)
 	// Post, when set, runs after exploration with the run results (ABCI conformance etc.).
@@ -115,8 +116,13 @@ func Execute(p *Plan, o ExecOpts) (*ExecOut, error) {
 	n := len(p.Scenarios)
 	for i, sc := range p.Scenarios {
 		// each scenario gets an equal share of what is left of the wall-clock cap
+		// a scenario may use what is left of the wall-clock cap, minus a small reserve for each
+		// scenario still to come (so that a large one cannot starve the rest completely)
 		remain := time.Until(o.Deadline)
-		share := remain / time.Duration(n-i)
+		share := remain - time.Duration(n-i-1)*8*time.Second
+		if share < remain/time.Duration(n-i) {
+			share = remain / time.Duration(n-i)
+		}
 		dl := time.Now().Add(share)
 		if remain <= 0 {
 			exhaustive = false
@@ -184,6 +190,23 @@ func Execute(p *Plan, o ExecOpts) (*ExecOut, error) {
 		ev.Coverage["cap"] = fmt.Sprintf("wall-clock cap hit; scenarios marked exhaustive=true completed their whole space, the others report what they covered")
 	}
 
+	if p.Level == "model_checking" && !p.NoABCI {
+		maxH := 400
+		if p.Tier == "thorough" {
+			maxH = 3000
+		}
+		conf, per, err := Conformance(p.Prop, p.Tier, o.Workers, maxH)
+		if err != nil {
+			return nil, fmt.Errorf("conformance run: %w", err)
+		}
+		if len(conf.Failures) > 0 {
+			f := conf.Failures[0]
+			return nil, fmt.Errorf("the emulation does not conform to the real ABCI pipeline (this is a defect of the harness, not a verdict on the property): %s\n  history: %v", f.Detail, opsStr(f.Hist))
+		}
+		ev.Coverage["traces_validated_against_impl"] = conf.Validated
+		ev.Coverage["abci_conformance"] = map[string]any{"what": "every maximal history of the small conformance scenarios replayed through InitChain/FinalizeBlock/Commit with really signed transactions; per-tx code, FinalizeBlock error, fundraising store dump and tracked balances compared with the emulation after every block",
+			"scenarios": per, "blocks": conf.Blocks, "signed_transactions": conf.Txs}
+	}
 	if p.Post != nil {
 		more, err := p.Post(p, o, all, ev)
 		if err != nil {
